@@ -357,12 +357,22 @@ class Ctx:
             self.corr_mismatches.append((op, jsonable(case), detail))
         self.count("corr_mismatch:" + op)
 
+    def pinned_match(self, sig, op, case, detail):
+        """the implementation matches the model's `Pinned` variant (the defective behaviour of a listed known
+        finding) instead of the `Spec` variant: a known finding if listed, otherwise a broken correspondence"""
+        if (self.pid, sig) in self.known:
+            self.known_hits.setdefault(sig, self.known[(self.pid, sig)])
+            self.count("matches_pinned:" + sig)
+        else:
+            self.corr_mismatch(op, case, detail)
+
     def oracle_fail(self, sig, oracle, args, observed, required, text):
         """a concrete input on which the IMPLEMENTATION breaks the property.
         sig: stable signature (call site / defect id) matched against known_findings.txt"""
         if (self.pid, sig) in self.known:
             if sig not in self.known_hits:
-                self.known_hits[sig] = text
+                self.known_hits[sig] = self.known[(self.pid, sig)]
+            self.count("known_finding_inputs:" + sig)
             return
         if len(self.oracle_failures) < 20:
             self.oracle_failures.append((sig, oracle, jsonable(args), jsonable(observed), jsonable(required), text))
